@@ -13,14 +13,23 @@
 //             in front of its first lock in advance(); it stays runnable-but-not-run until the driver next
 //             blocks): reads and the following operations see expired-but-not-yet-evicted keys
 //     | W d : the wall clock alone jumps forward by d (steady clock, hence every timer, unaffected)
-//   with d in {1s,2s,30s}, keys {"a","ab"}, values {"", "x", "\0\xff"}, a 1 s tick / 4 slot / 2 level wheel
-//   (range 16 s: a 20 s TTL is clamped and re-armed) and maxCacheSize = 1 (< key set).
+//   with d in {1s,2s,30s} (Q also 17s: inside the clamped re-arm window of a 20 s TTL), keys {"a","ab"}, values
+//   {"", "x", "\0\xff"}, a 1 s tick / 4 slot / 2 level wheel (range 16 s: a 20 s TTL is clamped and re-armed) and
+//   maxCacheSize = 1 (< key set).
 //   After EVERY step every read API (get, getString, exists, ttl, keys, keysWithPrefix, size, getBatch) is
 //   compared, twice (key order forward / reverse: get() has a cache side effect), with the reference
 //   std::map<key,{value, optional absolute expiry}> evaluated at the virtual wall clock of that instant.
 //   Every history ends with an extra close+reopen+compare.
-//   "hist_deep" repeats this one level deeper over a reduced alphabet (one value, one key for the plain
-//   writers); "boundary" uses boundary-length / binary keys and values; "cache0" uses maxCacheSize = 0.
+//   Scenarios:  hist          all 44 operations, depth 3
+//               hist_reduced  a sub-alphabet (one value per writer; 14 operations quick / 18 thorough), depth 4
+//               boundary      keys of MAX_KEY_LENGTH and MAX_KEY_LENGTH+1 bytes, the empty key, a binary key, a value
+//                             holding all 256 byte values, depth 3
+//               bigvalue      values of exactly MAX_VALUE_LENGTH bytes (depth 1 quick / 2 thorough: ~5 s per set/reload)
+//               cache0        maxCacheSize = 0, depth 2
+//               autocompact   maxLogSizeBytes = 1: every write compacts inline; 14-operation sub-alphabet, depth 3 / 4
+//   Built with -DC12_DEEP (second part, thorough tier only, no ASan => ~3x cheaper executions):
+//               hist_d4          all 44 operations, depth 4
+//               hist_reduced_d5  the first 15 operations of the sub-alphabet, depth 5
 // Part (ii) "race_*": the tick thread / eviction worker vs a writer re-setting the same key (plain, TTL,
 //   remove) vs a reader, all interleavings within the deviation bounds (P preemptions, T timer deviations,
 //   S non-default successors).  Every read must be legal for the old or the new reference state of that key
@@ -34,8 +43,9 @@
 //   no-unexpected-exception     an operation on valid input threw
 //   race-read-legal / race-final-state   part (ii)
 //   (+ no-crash-no-ub, no-deadlock, bounded-time, terminates from the runtime)
-// Signature = <kind>:after-<operation class>:key-was-<state of that key before the operation>:via=<read APIs
-// that disagree>, derived from the failing step itself.
+// Signature = <kind>:after-<operation class>:key-was-<state of that key before the operation>[:key=<how the key's
+// current incarnation was written, for mismatches after a restart>][:klen=/:vlen= for boundary lengths]:via=<read
+// APIs that disagree>, all derived from the failing step itself.
 #include "mc.h"
 #include "report.hpp"
 
@@ -1443,6 +1453,13 @@ int main(int argc, char **argv)
     // quick: the first 14 operations of the reduced alphabet; thorough: all 18 (depth 4 both)
     std::vector<Op> alpha(ALPHA_DEEP.begin(), ALPHA_DEEP.begin() + (thorough ? long(ALPHA_DEEP.size()) : 14));
     histScn("hist_reduced", [=]() { history(alpha, depthDeep, 1, U, PFX); }, thorough ? 120 : 45);
+  }
+  {
+    // every write compacts inline (maxLogSizeBytes = 1, background compaction off): snapshot written, log truncated,
+    // expired keys dropped, after each operation
+    std::vector<Op> alpha(ALPHA_DEEP.begin(), ALPHA_DEEP.begin() + 14);
+    const int depthAuto = envInt("C12_DEPTH_AUTO", thorough ? 4 : 3);
+    histScn("autocompact", [=]() { history(alpha, depthAuto, 1, U, PFX, 1); }, thorough ? 40 : 4);
   }
   histScn(
     "boundary",
